@@ -259,6 +259,16 @@ partial def loop (wt : WidthTable) (h : IO.FS.Stream) (d : DState) : IO Unit := 
     let o ← IO.getStdout
     o.putStrLn s!"{n} {es} {hexOrDash del}"; o.flush
     loop wt h d
+  | ["writep", hx, calls] =>
+    -- calls: `k` (accepts k bytes) or `k!` (accepts k bytes and returns an error), comma separated
+    let b := (bytesOfHex hx).getD []
+    let script : WScriptP := if calls = "-" then [] else (calls.splitOn ",").map fun c =>
+      if c.endsWith "!" then ⟨(c.dropEnd 1).toString.toNat!, true⟩ else ⟨c.toNat!, false⟩
+    let (n, e, del) := terminalWriteP b script
+    let es := match e with | .nil => "nil" | .injected => "injected" | .shortWrite => "short write"
+    let o ← IO.getStdout
+    o.putStrLn s!"{n} {es} {hexOrDash del}"; o.flush
+    loop wt h d
   | ["rbuf", "init"] => loop wt h { d with rbuf := RBuf.init }
   | ["rbuf", "fill", hx] =>
     let r := d.rbuf.fill ((bytesOfHex hx).getD [])
